@@ -147,7 +147,10 @@ class C20(Oracle):
             if N.obj.status is O.obj.status:
                 return 'status', {'new': n, 'other': j, 'other_origin': O.origin}
             nv, ov = N.obj.val, O.obj.val
-            if isinstance(nv, np.ndarray) and isinstance(ov, np.ndarray):
+            if isinstance(nv, np.ndarray) and isinstance(ov, np.ndarray) and \
+                    nv.dtype.kind != 'O' and ov.dtype.kind != 'O':
+                # (object-dtype storage = words of 64+ bits, outside the core domain: its elements
+                # are Python objects that NumPy may hand out by reference)
                 sh = np.shares_memory(nv, ov)
                 if N.token != O.token and sh:
                     return 'value-buffer', {'new': n, 'other': j, 'other_origin': O.origin}
@@ -298,6 +301,11 @@ def wellformed(obj, fresh=False):
             for p in parts:
                 try:
                     ok = Fraction(p) == want
+                    if not ok and scaled:
+                        # scale*limit+bias is evaluated in doubles by the library; accept exactly
+                        # that rounding of the exact unscaled limit (wide words under a scaled template)
+                        u = float(Q.unscale(code, nf))
+                        ok = p == (float(scale) * u + (float(bias) if use_bias else 0.0))
                 except (TypeError, ValueError, OverflowError):
                     ok = False
                 if not ok:
